@@ -93,6 +93,11 @@ add("C19", MC,
     "Trusted: simnet; refimpl::{varint,qpack,settings}. Client role of WebTransport is not implemented by the crate and not covered.",
     "stateless DFS with deviation bounding over chunking x delivery x schedule choices of the running implementation", "dfs", "DESIGN.md 5/C19")
 
+add("C05", MC,
+    "Controlled-scheduler exploration of the real code on real OS threads: the connection driver and 1..3 request handles pass a baton, every ConnectionState accessor of h3 (error cell get/set, waker access, closing flag, settings) is a pre-emption point through the verif-hooks callback, and the DFS enumerates ALL interleavings for 2 threads and all interleavings up to a pre-emption bound for 3 and 4 threads, for every subset of five error-raising kinds, with and without an error the driver detects itself, both roles. After each run every handle is called again. Oracle: exactly one distinct connection error over all reports, close() once with its code iff locally detected, and no lost wake-up (a parked driver with no runnable thread is a deadlock).",
+    "Trusted: OnceLock and AtomicWaker are atomic (documented contracts); sequentially consistent interleavings only (Relaxed on the closing flag not modelled); the driver keeps one waker for its lifetime. Bounds: quick pre-emption 5 (3 threads) / 3 (4 threads); thorough unbounded / 5.",
+    "stateless exploration of thread interleavings of the implementation under a controlled (baton) scheduler with pre-emption bounding", "threads", "DESIGN.md 5/C05")
+
 ALL = [f"C{i:02d}" for i in range(1, 21)]
 pending_reason = "check not built yet in this revision of /verif (planned, see DESIGN.md section 5)"
 manifest = dict(
@@ -107,6 +112,7 @@ manifest = dict(
     ),
     engines=[
         dict(name="enumeration", path="harness/crates/checks", serves_properties=["C11","C12","C15","C16","C18"], kind_free_text="complete enumeration of bounded input spaces of the real codecs against refimpl"),
+        dict(name="threads", path="harness/crates/explore/src/threads.rs", serves_properties=["C05"], kind_free_text="baton scheduler over real OS threads: all sequentially consistent interleavings of hooked operations, pre-emption bounded, deadlock = lost wake-up"),
         dict(name="dfs", path="harness/crates/explore/src/dfs.rs", serves_properties=["C01","C02","C03","C04","C06","C07","C08","C09","C10","C13","C14","C19"], kind_free_text="stateless DFS over choice vectors (deviation-bounded) of real h3 over the simnet in-memory transport"),
     ],
     checks=[checks[k] for k in sorted(checks)],
